@@ -139,6 +139,15 @@ chk('C11',
     'Trusted: the reconstruction (real code from scratch) and the canonical value comparison in Python.',
     'sanitizer build + differential monitor (stored value vs full recalculation) over operation histories', 'DESIGN.md 4 C11')
 
+chk('C08',
+    'Runtime monitoring of identifier translation at three observation points: TranslateRS / SubstituteGlobals on token '
+    'soups against a reference model of the lexical grammar (longest match) with simultaneous whole-token substitution; '
+    'ManagedText::TranslateRaw against the reference scanner of text references; and, in editing histories, every '
+    'successful SetAliasFor(substitute) / ResetAliases compared before-vs-after under the alias map (definitions, '
+    'conventions, raw texts exactly; dependency edges, status, typification, syntax tree up to the substitution).',
+    'Trusted: the Python reading of the lexical grammar and of the reference syntax.',
+    'sanitizer build + reference-model monitors (lexical-grammar model, reference scanner) and before/after rename monitor over histories', 'DESIGN.md 4 C08')
+
 chk('C13',
     'Runtime monitoring of OpExtractBasis / OpMaxPart on schemas reached by editing histories (forward references, moved '
     'constituents, incorrect members) against a Python reference model (closure / fixpoint over the reported edges, '
